@@ -273,14 +273,40 @@ func ruleReadXRefOrder(c *core.Ctx) {
 	c.Check(rule, "pdf.(*Reader).readXRef/seen", "the /Prev loop and the /XRefStm visit are guarded by one visited-set that is updated before the section is read", func(o *core.Ob) {
 		seen := localVar(fn, "seen", 0)
 		stores := mapStores(g, seen)
-		o.Count(len(stores))
-		if len(stores) < 2 {
-			o.Unrec("expected the visited-set to be updated for the section and for /XRefStm, found %d stores", len(stores))
+		// a set type with methods (seen.has(x), seen.add(x)) counts like the map it wraps
+		methodOn := func(e ast.Expr) (*ast.CallExpr, bool) {
+			call, ok := ast.Unparen(e).(*ast.CallExpr)
+			if !ok {
+				return nil, false
+			}
+			se, ok := ast.Unparen(call.Fun).(*ast.SelectorExpr)
+			if !ok || core.ObjOf(info, se.X) != seen || len(call.Args) != 1 {
+				return nil, false
+			}
+			return call, true
+		}
+		var addVs []*core.V
+		for _, v := range g.Vs {
+			if es, ok := v.AST.(*ast.ExprStmt); ok {
+				if call, isM := methodOn(es.X); isM {
+					if tv, has := info.Types[call]; has && tv.IsVoid() {
+						addVs = append(addVs, v)
+					}
+				}
+			}
+		}
+		o.Count(len(stores) + len(addVs))
+		if len(stores)+len(addVs) < 2 {
+			o.Unrec("expected the visited-set to be updated for the section and for /XRefStm, found %d stores", len(stores)+len(addVs))
+			return
 		}
 		// every call that reads a section is dominated by a `seen[x] == false` fact and by a store seen[x] = true
 		for _, cv := range callVertices(g, "pdf.readXRefTable", "pdf.(*Reader).readXRefStream") {
 			o.At(fn.Site(cv.Call, "reads a section"))
 			ok := g.GuardedBy(cv.V, func(a core.Atom) bool {
+				if _, isM := methodOn(a.Expr); isM && a.Neg && a.Tag == nil && isBoolExpr(info, a.Expr) {
+					return true
+				}
 				ix, isIx := ast.Unparen(a.Expr).(*ast.IndexExpr)
 				return isIx && a.Neg && a.Tag == nil && core.ObjOf(info, ix.X) == seen
 			})
@@ -290,6 +316,11 @@ func ruleReadXRefOrder(c *core.Ctx) {
 			dom := false
 			for _, st := range stores {
 				if g.Dominates(st.V, cv.V) {
+					dom = true
+				}
+			}
+			for _, av := range addVs {
+				if g.Dominates(av, cv.V) {
 					dom = true
 				}
 			}
@@ -520,7 +551,30 @@ func absoluteOffset(c *core.Ctx, fn *core.Func, e ast.Expr, depth int) (bool, st
 		obj := info.ObjectOf(x)
 		defs := core.AssignsTo(info, fn.Decl, obj)
 		if len(defs) == 0 {
-			return false, "no definition of " + x.Name + " (parameter?)"
+			// a parameter of an unexported helper: every call in the package must hand over an absolute offset
+			idx := paramIndexOf(fn, obj)
+			if idx < 0 || fn.Obj.Exported() || depth <= 0 {
+				return false, "no definition of " + x.Name + " (parameter?)"
+			}
+			sites := 0
+			for _, caller := range c.Prog.Funcs(c.Prog.Pkg("pdf")) {
+				if caller.Decl.Body == nil || c.Prog.IsTestFile(caller.Decl.Pos()) {
+					continue
+				}
+				for _, cs := range core.CallsIn(caller.Info(), caller.Decl, true) {
+					if cs.Fn == nil || cs.Fn.Origin() != fn.Obj.Origin() || idx >= len(cs.Call.Args) {
+						continue
+					}
+					sites++
+					if ok, why := absoluteOffset(c, caller, cs.Call.Args[idx], depth-1); !ok {
+						return false, "in " + caller.Key + ": " + why
+					}
+				}
+			}
+			if sites == 0 {
+				return false, "no definition of " + x.Name + " (a parameter of a function without callers)"
+			}
+			return true, ""
 		}
 		for _, n := range defs {
 			as, ok := n.(*ast.AssignStmt)
@@ -942,6 +996,10 @@ func ruleStreamLength(c *core.Ctx) {
 			return core.Mentions(info, a.Expr, obj) || (a.Tag != nil && core.Mentions(info, a.Tag, obj))
 		}
 		check := func(at *core.V, obj types.Object, id *ast.Ident, what string) {
+			if b, isB := obj.Type().Underlying().(*types.Basic); !isB || b.Info()&types.IsInteger == 0 {
+				o.Unrec("%s: the declared length is carried in %s, which is not an integer (a struct with a validity flag?): for which lengths the step runs is not decided", what, id.Name)
+				return
+			}
 			var atoms []core.Atom
 			for _, a := range g.DominatingAtoms(at) {
 				if mentions(a, obj) {
@@ -1091,6 +1149,14 @@ func ruleStreamLength(c *core.Ctx) {
 				if _, nm, ok := selName(s.Lhs[0]); ok && nm == "pos" {
 					if k, _ := core.IntConst(info, s.Rhs[0]); k == 2 {
 						cr := g.GuardedBy(v, func(a core.Atom) bool {
+							// bytes.HasPrefix(buf, []byte("\r\n"))
+							if call, isCall := ast.Unparen(a.Expr).(*ast.CallExpr); isCall && !a.Neg && a.Tag == nil && len(call.Args) == 2 {
+								if key := core.CalleeKey(info, call); key == "bytes.HasPrefix" || key == "strings.HasPrefix" {
+									if str, isS := constBytes(info, call.Args[1]); isS && str == "\r\n" {
+										return true
+									}
+								}
+							}
 							cmp, ok := a.AsCmp()
 							if !ok || cmp.Op != token.EQL {
 								return false
@@ -1179,25 +1245,37 @@ func ruleC04Lexical(c *core.Ctx) {
 		env := byteEnvFor(c.Prog, fn, b)
 		o.At(fn.Site(lit, "byte predicate"))
 		// bytes that end a comment: reach `isComment = false`
-		endC := env.ReachSet(g, []*core.V{g.Entry}, func(v *core.V) bool {
+		// (the value assigned may be computed from the byte: isComment = b != CR && b != LF)
+		inComment := func(v *core.V) bool {
+			return g.GuardedBy(v, func(a core.Atom) bool {
+				return !a.Neg && a.Tag == nil && core.ObjOf(fn.Info(), a.Expr) == isC
+			})
+		}
+		endC := env.ReachSetState(g, []*core.V{g.Entry}, func(v *core.V, st *core.ByteState) bool {
 			as, ok := v.AST.(*ast.AssignStmt)
 			if !ok || core.ObjOf(fn.Info(), as.Lhs[0]) != isC {
 				return false
 			}
-			cv := core.ConstOf(fn.Info(), as.Rhs[0])
-			return cv != nil && cv.String() == "false"
+			if cv := core.ConstOf(fn.Info(), as.Rhs[0]); cv != nil {
+				return cv.String() == "false"
+			}
+			val, known := st.Bool(as.Rhs[0])
+			return known && !val
 		}, nil)
 		o.Count(256)
 		if !endC.Equal(core.BytesOf("\r\n")) {
 			o.Fail("a comment ends at %s, want {CR, LF}", endC.String())
 		}
-		startC := env.ReachSet(g, []*core.V{g.Entry}, func(v *core.V) bool {
+		startC := env.ReachSetState(g, []*core.V{g.Entry}, func(v *core.V, st *core.ByteState) bool {
 			as, ok := v.AST.(*ast.AssignStmt)
-			if !ok || core.ObjOf(fn.Info(), as.Lhs[0]) != isC {
-				return false
+			if !ok || core.ObjOf(fn.Info(), as.Lhs[0]) != isC || inComment(v) {
+				return false // an assignment made inside a comment keeps or ends it, it does not start one
 			}
-			cv := core.ConstOf(fn.Info(), as.Rhs[0])
-			return cv != nil && cv.String() == "true"
+			if cv := core.ConstOf(fn.Info(), as.Rhs[0]); cv != nil {
+				return cv.String() == "true"
+			}
+			val, known := st.Bool(as.Rhs[0])
+			return known && val
 		}, nil)
 		if !startC.Equal(core.BytesOf("%")) {
 			o.Fail("a comment starts at %s, want {%%}", startC.String())
@@ -1365,14 +1443,26 @@ func ruleC04Lexical(c *core.Ctx) {
 			k, isK := core.IntConst(info, ix.Index)
 			return isK && k == 17
 		}
+		kindField := "" // the kind kept in a field of a local struct (line.kind = buf[17])
 		ast.Inspect(fn.Decl.Body, func(n ast.Node) bool {
 			if as, ok := n.(*ast.AssignStmt); ok && len(as.Lhs) == 1 && len(as.Rhs) == 1 && isKind(as.Rhs[0]) {
 				kindVar = core.ObjOf(info, as.Lhs[0])
+				if _, isSel := ast.Unparen(as.Lhs[0]).(*ast.SelectorExpr); isSel {
+					kindField = strings.ReplaceAll(core.ExprStr(as.Lhs[0]), " ", "")
+				}
 			}
 			return true
 		})
 		env := byteEnvFor(c.Prog, fn, kindVar)
-		env.Alias = isKind
+		env.Alias = func(e ast.Expr) bool {
+			if isKind(e) {
+				return true
+			}
+			if _, isSel := ast.Unparen(e).(*ast.SelectorExpr); isSel && kindField != "" {
+				return strings.ReplaceAll(core.ExprStr(e), " ", "") == kindField
+			}
+			return false
+		}
 		// start after the last write to the kind byte (the 65536 repair rewrites it)
 		starts := []*core.V{g.Entry}
 		var kindWrites []*core.V
@@ -1530,8 +1620,17 @@ func ruleC04Lexical(c *core.Ctx) {
 				}
 				switch k {
 				case 'f':
-					if field("Pos") != "-1" {
-						o.Fail("free entry stored with Pos %s", field("Pos"))
+					if pos := field("Pos"); pos != "-1" {
+						// the same constant under a name
+						minus1 := len(fieldExprs["Pos"]) > 0
+						for _, e := range fieldExprs["Pos"] {
+							if k, isK := core.IntConst(info, e); !isK || k != -1 {
+								minus1 = false
+							}
+						}
+						if !minus1 {
+							o.Fail("free entry stored with Pos %s", pos)
+						}
 					}
 				case 'n':
 					pos := field("Pos")
@@ -1808,20 +1907,69 @@ func ruleObjStmLookup(c *core.Ctx) {
 // isEndstreamFlag: obj is a boolean whose definitions are the constant false
 // and the result of endstreamAt(..., start+declared).
 func isEndstreamFlag(fn *core.Func, obj types.Object, declared types.Object) bool {
-	if obj == nil {
+	return isEndstreamFlagDepth(fn, obj, declared, 3)
+}
+
+// isEndstreamFlagDepth: every definition of the boolean obj is false, the
+// result of endstreamAt for the declared length, a copy of such a flag (the
+// result variable of a folded-in helper), or true under such a flag.
+func isEndstreamFlagDepth(fn *core.Func, obj types.Object, declared types.Object, depth int) bool {
+	if obj == nil || depth <= 0 {
 		return false
 	}
 	info := fn.Info()
+	g := fn.Graph()
 	fromCall := false
 	for _, d := range core.AssignsTo(info, fn.Decl, obj) {
 		as, ok := d.(*ast.AssignStmt)
-		if !ok || len(as.Rhs) != 1 {
+		if !ok {
+			if vs, isVS := d.(*ast.ValueSpec); isVS && len(vs.Values) == 0 {
+				continue // declared, zero value
+			}
 			return false
 		}
-		if cv := core.ConstOf(info, as.Rhs[0]); cv != nil && cv.String() == "false" {
+		idx := -1
+		for i, l := range as.Lhs {
+			if core.ObjOf(info, l) == obj {
+				idx = i
+			}
+		}
+		if idx < 0 {
+			return false
+		}
+		var rhs ast.Expr
+		switch {
+		case len(as.Rhs) == len(as.Lhs):
+			rhs = as.Rhs[idx]
+		case len(as.Rhs) == 1 && idx == 0:
+			rhs = as.Rhs[0]
+		default:
+			return false
+		}
+		if cv := core.ConstOf(info, rhs); cv != nil && cv.String() == "false" {
 			continue
 		}
-		call, ok := as.Rhs[0].(*ast.CallExpr)
+		if cv := core.ConstOf(info, rhs); cv != nil && cv.String() == "true" {
+			// true under another flag of this kind
+			v := g.VertexOf(as)
+			under := v != nil && g.GuardedBy(v, func(a core.Atom) bool {
+				id, isID := ast.Unparen(a.Expr).(*ast.Ident)
+				return isID && !a.Neg && a.Tag == nil && info.ObjectOf(id) != obj && isEndstreamFlagDepth(fn, info.ObjectOf(id), declared, depth-1)
+			})
+			if !under {
+				return false
+			}
+			fromCall = true
+			continue
+		}
+		if id, isID := ast.Unparen(rhs).(*ast.Ident); isID {
+			if other := info.ObjectOf(id); other != nil && other != obj && isEndstreamFlagDepth(fn, other, declared, depth-1) {
+				fromCall = true
+				continue
+			}
+			return false
+		}
+		call, ok := ast.Unparen(rhs).(*ast.CallExpr)
 		if !ok || core.CalleeKey(info, call) != "pdf.endstreamAt" || !core.Mentions(info, call.Args[1], declared) {
 			return false
 		}
@@ -2227,42 +2375,96 @@ func rulePrevChainFollowed(c *core.Ctx) {
 		info := fn.Info()
 		var flag types.Object
 		for _, v := range g.Vs {
-			if as, ok := v.AST.(*ast.AssignStmt); ok && len(as.Lhs) == 1 && len(as.Rhs) == 1 {
-				if cv := core.ConstOf(info, as.Rhs[0]); cv != nil && cv.String() == "true" && g.InLoop(v) {
-					if obj := core.ObjOf(info, as.Lhs[0]); obj != nil && isBoolObj(obj) {
-						flag = obj
+			as, ok := v.AST.(*ast.AssignStmt)
+			if !ok || len(as.Lhs) != len(as.Rhs) || !g.InLoop(v) {
+				continue
+			}
+			for i, r := range as.Rhs {
+				if cv := core.ConstOf(info, r); cv != nil && cv.String() == "true" {
+					if id, isID := ast.Unparen(as.Lhs[i]).(*ast.Ident); isID {
+						if obj := info.ObjectOf(id); obj != nil && isBoolObj(obj) {
+							flag = obj
+						}
 					}
 				}
 			}
 		}
 		if flag == nil {
-			core.Undecided("no boolean flag set inside the byte loop")
+			o.Unrec("no boolean local that is set inside the byte loop was found: how an LF after a CR is recognised is not located")
+			return
 		}
+		// every definition of the flag inside the loop that does not depend on its old value ends
+		// the life of the old value (clearing it, or setting it for the byte at hand)
 		var resets []*core.V
 		for _, dv := range defVertices(g, flag) {
-			if as, ok := dv.AST.(*ast.AssignStmt); ok && len(as.Rhs) == 1 {
-				if cv := core.ConstOf(info, as.Rhs[0]); cv != nil && cv.String() == "false" && g.InLoop(dv) {
+			as, ok := dv.AST.(*ast.AssignStmt)
+			if !ok || len(as.Lhs) != len(as.Rhs) || !g.InLoop(dv) {
+				continue
+			}
+			for i, l := range as.Lhs {
+				if core.ObjOf(info, l) == flag && !core.Mentions(info, as.Rhs[i], flag) {
 					resets = append(resets, dv)
-					o.At(fn.Site(as, "flag cleared"))
+					if cv := core.ConstOf(info, as.Rhs[i]); cv != nil && cv.String() == "false" {
+						o.At(fn.Site(as, "flag cleared"))
+					}
 				}
 			}
 		}
-		o.Require(len(resets) >= 1, "the flag %s is never cleared inside the loop", flag.Name())
+		cleared := false
+		for _, dv := range resets {
+			as := dv.AST.(*ast.AssignStmt)
+			for i, l := range as.Lhs {
+				if core.ObjOf(info, l) == flag {
+					if cv := core.ConstOf(info, as.Rhs[i]); cv != nil && cv.String() == "false" {
+						cleared = true
+					}
+				}
+			}
+		}
+		o.Require(cleared, "the flag %s is never cleared inside the loop", flag.Name())
 		edges := g.GuardEdges(func(a core.Atom) bool {
 			id, ok := ast.Unparen(a.Expr).(*ast.Ident)
 			return ok && a.Neg && a.Tag == nil && info.ObjectOf(id) == flag
 		})
-		// the vertices that test the flag
-		var tests []*core.V
-		for _, bv := range g.BranchVertices() {
-			if bv.Cond.Expr != nil && condMentions(g, bv, flag) {
-				tests = append(tests, bv)
+		// one iteration = one byte: the read of the next byte that every other read in the loop follows
+		var reads []*core.V
+		for _, v := range g.Vs {
+			if v.AST == nil || !g.InLoop(v) {
+				continue
+			}
+			for _, cs := range core.CallsIn(info, v.AST, false) {
+				if strings.HasSuffix(cs.Key, ".ReadByte") {
+					reads = append(reads, v)
+				}
 			}
 		}
-		o.Require(len(tests) >= 1, "the flag is never tested")
-		o.Count(len(tests))
+		var anchors []*core.V
+		for _, r := range reads {
+			first := true
+			for _, q := range reads {
+				if q != r && !g.Dominates(r, q) {
+					first = false
+				}
+			}
+			if first {
+				anchors = append(anchors, r)
+			}
+		}
+		if len(anchors) == 0 {
+			// no such read: the tests of the flag stand for the iteration
+			for _, bv := range g.BranchVertices() {
+				if bv.Cond.Expr != nil && condMentions(g, bv, flag) {
+					anchors = append(anchors, bv)
+				}
+			}
+		}
+		if len(anchors) == 0 {
+			o.Unrec("neither the read of the next byte nor a test of %s was found in the loop", flag.Name())
+			return
+		}
+		o.Count(len(anchors))
 		bad := false
-		for _, tv := range tests {
+		for _, tv := range anchors {
 			if g.ReachFrom(tv, false, core.AvoidEdges(edges...).With(resets...))[tv] {
 				bad = true
 			}
